@@ -32,11 +32,16 @@ def _finite(x):
     return mpmath.isfinite(x)
 
 
+_MAG = [300]  # decimal exponent bound on every intermediate value (set by value(..., mag=))
+
+
 def _chk(x, what):
     if not _finite(x):
         raise Unjudgeable("non_finite:" + what)
-    if abs(x) > mpf(10) ** 300:
+    if abs(x) > mpf(10) ** _MAG[0]:
         raise Unjudgeable("overflow")
+    if x != 0 and abs(x) < mpf(10) ** -_MAG[0]:
+        raise Unjudgeable("overflow:underflow")
     return x
 
 
@@ -48,6 +53,11 @@ def _pow(b, e):
         if er > 0:
             return mpf(0)
         raise Unjudgeable("pole:0**nonpositive")
+    er = e.real if isinstance(e, mpc) else e
+    # magnitude guard: |b**e| far outside double range is neither evaluated nor sent to the library
+    lb = mp.log(abs(b), 2)
+    if abs(er * lb) > 3.7 * _MAG[0] or abs(e) > 10 ** 7:
+        raise Unjudgeable("overflow:pow")
     if isinstance(e, mpf) and e == int(e) and abs(e) < 10 ** 6:
         return mp.power(b, int(e))
     return mp.exp(e * mp.log(b))
@@ -208,7 +218,9 @@ def double_exact(s):
 class Evaluator:
     """env: symbol name -> number; funcs: FunctionSymbol name -> python callable on mp values"""
 
-    def __init__(self, env=None, funcs=None, real_margin=None, cut_guard=False):
+    def __init__(self, env=None, funcs=None, real_margin=None, cut_guard=False, pert=None):
+        self.pert = pert  # bit pattern: every float-tainted node's value is scaled by (1 +- 2^-52)
+        self.pcount = 0
         self.env = env or {}
         self.funcs = funcs or {}
         self.margin = real_margin  # minimal distance from kinks for real-only piecewise ops
@@ -321,6 +333,17 @@ class Evaluator:
 
     # ---- main
     def value(self, d):
+        if self.pert is None:
+            return self._value(d)
+        v = self._value(d)
+        if has_float(d):
+            k = self.pcount
+            self.pcount += 1
+            sgn = 1 if (self.pert >> (k % 61)) & 1 else -1
+            v = v * (1 + mpf(sgn) * mpf(2) ** -52)
+        return v
+
+    def _value(self, d):
         t = d[0]
         # ---------------- leaves (dump)
         if t == "Integer":
@@ -524,15 +547,20 @@ def env_mp(env):
     return out
 
 
-def value(node, env=None, dps=40, funcs=None, margin=None, cut_guard=False):
-    with mp.workdps(dps):
-        return +Evaluator(env_mp(env), funcs, margin, cut_guard).value(node)
+def value(node, env=None, dps=40, funcs=None, margin=None, cut_guard=False, mag=300, pert=None):
+    old = _MAG[0]
+    _MAG[0] = mag
+    try:
+        with mp.workdps(dps):
+            return +Evaluator(env_mp(env), funcs, margin, cut_guard, pert).value(node)
+    finally:
+        _MAG[0] = old
 
 
-def stable_value(node, env=None, funcs=None, margin=None, lo=35, hi=70, agree=None, cut_guard=False):
+def stable_value(node, env=None, funcs=None, margin=None, lo=35, hi=70, agree=None, cut_guard=False, mag=300):
     """Evaluate at two precisions; Unjudgeable('ill_conditioned') if they disagree."""
-    a = value(node, env, lo, funcs, margin, cut_guard)
-    b = value(node, env, hi, funcs, margin, cut_guard)
+    a = value(node, env, lo, funcs, margin, cut_guard, mag)
+    b = value(node, env, hi, funcs, margin, cut_guard, mag)
     with mp.workdps(hi):
         tol = mpf(10) ** (-(agree if agree is not None else lo - 10))
         if abs(a - b) > tol * max(1, abs(b)):
@@ -577,15 +605,43 @@ def perturb_floats(node, bits):
     return walk(node)
 
 
-def float_kappa(node, env, funcs=None, margin=None, cut_guard=False, dps=50):
-    """amplification of 1-ulp perturbations of the float leaves (DESIGN 3.3); Unjudgeable if > 1e4"""
-    base = value(node, env, dps, funcs, margin, cut_guard)
+def float_kappa(node, env, funcs=None, margin=None, cut_guard=False, dps=50, mag=300):
+    """first-order forward-error amplification (DESIGN 3.3): the value of every node whose subtree
+    contains an inexact leaf (the library rounds each such operation to double) is perturbed by
+    +-1 ulp under four sign patterns; Unjudgeable if the amplification exceeds 1e4"""
+    base = value(node, env, dps, funcs, margin, cut_guard, mag)
     worst = mpf(0)
     with mp.workdps(dps):
-        for bits in (0x5555555555555555, 0x3333333333333333, 0x0f0f0f0f0f0f0f0f, 0xffffffffffffffff):
-            v = value(perturb_floats(node, bits), env, dps, funcs, margin, cut_guard)
+        for bits in (0x5555555555555555, 0x3333333333333333, 0x0f0f0f0f0f0f0f0f, 0xffffffffffffffff,
+                     0x00ff00ff00ff00ff, 0x6996966996696996):
+            v = value(node, env, dps, funcs, margin, cut_guard, mag, pert=bits)
             den = abs(base) if base != 0 else mpf(1)
             worst = max(worst, abs(v - base) / den / mpf(2) ** -52)
     if worst > 10 ** 4:
         raise Unjudgeable("ill_conditioned_float")
     return max(worst, mpf(1))
+
+
+def resource_blocked(node, env=None, mag=300, funcs=None):
+    """True when some subtree of the recipe, evaluated on its own, has a value outside
+    10**+-mag (e.g. 4**(2**63)): such recipes are not sent to the library at all --
+    exhausting memory/time on an astronomically large exact power is not a property violation.
+    Every subtree is tried separately because an unrelated Unjudgeable (branch cut, pole)
+    in a sibling must not hide the blow-up."""
+    hit = [False]
+
+    def walk(d):
+        if hit[0] or not isinstance(d, (list, tuple)) or not d or not isinstance(d[0], str):
+            return
+        for x in d[1:]:
+            walk(x)
+        if d[0] in ("pow", "Pow", "sqrt", "cbrt", "exp", "mul", "mul_vec", "Mul", "gamma", "Gamma"):
+            try:
+                value(d, env, 20, funcs, None, False, mag)
+            except Unjudgeable as u:
+                if u.reason.startswith("overflow"):
+                    hit[0] = True
+            except Exception:
+                pass
+    walk(node)
+    return hit[0]
